@@ -52,4 +52,16 @@ pub open spec fn export_unusable(exports: JsonValue, sub_path: Option<String>, n
     || exists|v: &str| export_lookup(exports, export_name_of(sub_path), Some(v))
           && (url_join(package_url_of(nv), v@) is None || !url_inside(url_join(package_url_of(nv), v@).unwrap(), package_url_of(nv)))
 }
+/// how a jsr: request whose version has been selected must end, whatever the code does in between (stated once, after
+/// the whole `match` on the manifest): manifest load failed -> that error for the specifier; export usable -> redirect
+/// and bookkeeping; otherwise -> unknown-export error
+pub open spec fn jsr_request_settled(g0: ModuleGraph, g1: ModuleGraph, item: PendingJsrNvResolutionItem, res: PendingResult<PendingJsrPackageVersionInfoLoadItem>, collect_top: bool) -> bool {
+    let nv = item.nv_ref.0.nv;
+    let sub = item.nv_ref.0.sub_path;
+    match res {
+        Err(e) => load_error_stored(g1, item.specifier, item.maybe_range, ModuleLoadError::Jsr(e)),
+        Ok(li) => (exists|value: &str, target: Url| #[trigger] jsr_export_resolved(g0, g1, item.specifier, nv, li.info.exports, sub, value, target, collect_top))
+            || (export_unusable(li.info.exports, sub, nv) && unknown_export_reported(g1, item.specifier, item.maybe_range, nv, li.info.exports, sub)),
+    }
+}
 } // verus!
